@@ -105,6 +105,13 @@ func frRunInBubble(sc frScenario) (*frResult, error) {
 		mu.Unlock()
 	}
 	cliDialer := &vk.Dialer{Net: cliNet, Ln: srv.cliLn}
+	var cdn *vCDN
+	if strings.EqualFold(sc.Client.Transport, "cdn") {
+		// client -> (latency/segmentation) -> TLS-terminating CDN shim -> ck-server
+		cdn = &vCDN{front: vk.NewListener(), back: srv.dialer(), net: srv.net}
+		cdn.serve()
+		cliDialer = &vk.Dialer{Net: cliNet, Ln: cdn.front}
+	}
 	_, remote, auth, err := vMustProcess(sc.Client, srv.pub, time.Now)
 	if err != nil {
 		return nil, fmt.Errorf("harness: %v", err)
@@ -307,7 +314,24 @@ func frRunInBubble(sc frScenario) (*frResult, error) {
 		}(idx, cs)
 	}
 	// ample virtual time: the slowest script plus transport latencies
-	time.Sleep(30 * time.Minute)
+	budget := 30 * time.Minute
+	for _, cs := range sc.Conns {
+		d := time.Duration(cs.StartMs) * time.Millisecond
+		for k := range cs.C2S {
+			if len(cs.C2SDelay) > 0 {
+				d += time.Duration(cs.C2SDelay[k%len(cs.C2SDelay)]) * time.Millisecond
+			}
+		}
+		for k := range cs.S2C {
+			if len(cs.S2CDelay) > 0 {
+				d += time.Duration(cs.S2CDelay[k%len(cs.S2CDelay)]) * time.Millisecond
+			}
+		}
+		if 2*d+20*time.Minute > budget {
+			budget = 2*d + 20*time.Minute
+		}
+	}
+	time.Sleep(budget)
 	// snapshot before the rig is torn down
 	mu.Lock()
 	for _, r := range res.conns {
@@ -316,6 +340,9 @@ func frRunInBubble(sc frScenario) (*frResult, error) {
 	}
 	mu.Unlock()
 	// teardown
+	if cdn != nil {
+		cdn.front.Close()
+	}
 	localLn.Terminate()
 	mu.Lock()
 	stopped = true
@@ -379,6 +406,9 @@ func frGen(maxConns int, directOnly bool) func(rt *rapid.T) frScenario {
 			Transport:  "direct",
 			ServerName: rapid.SampledFrom([]string{"www.bing.com", "random", "a.example.org"}).Draw(rt, "sn"),
 		}
+		if !directOnly && rapid.IntRange(0, 3).Draw(rt, "cdn") == 0 {
+			sc.Client.Transport = "cdn"
+		}
 		sc.SidBase = rapid.Uint32Range(0, 1<<31).Draw(rt, "sid")
 		n := rapid.IntRange(1, maxConns).Draw(rt, "nconns")
 		for i := 0; i < n; i++ {
@@ -416,10 +446,10 @@ func frContentOracle(res *frResult) (labels []string, nontrivial bool, err error
 			return nil, false, vk.ViolateSig("l3-stall", "connection %d completed only when the rig was being torn down", idx)
 		}
 		if !r.srvDone || r.c2sGot != frTotal(cs.C2S) {
-			return nil, false, vk.ViolateSig("l3-stall", "connection %d: proxy server received %d of %d bytes within 30 virtual minutes", idx, r.c2sGot, frTotal(cs.C2S))
+			return nil, false, vk.ViolateSig("l3-stall", "connection %d: proxy server received %d of %d bytes within the scenario's time budget", idx, r.c2sGot, frTotal(cs.C2S))
 		}
 		if !r.cliDone || r.s2cGot != frTotal(cs.S2C) {
-			return nil, false, vk.ViolateSig("l3-stall", "connection %d: proxy client received %d of %d bytes within 30 virtual minutes", idx, r.s2cGot, frTotal(cs.S2C))
+			return nil, false, vk.ViolateSig("l3-stall", "connection %d: proxy client received %d of %d bytes within the scenario's time budget", idx, r.s2cGot, frTotal(cs.S2C))
 		}
 	}
 	return nil, true, nil
@@ -467,9 +497,9 @@ func frRun(t *testing.T, oracle func(*frResult) (vk.Result, error)) func(sc frSc
 }
 
 func TestVerif_C01_FullRig(t *testing.T) {
-	vk.Run(t, "C01", "FullRig", frGen(12, true), frRun(t, func(fr *frResult) (vk.Result, error) {
+	vk.Run(t, "C01", "FullRig", frGen(12, false), frRun(t, func(fr *frResult) (vk.Result, error) {
 		_, _, err := frContentOracle(fr)
-		res := vk.Result{Labels: []string{fmt.Sprintf("numconn=%d", fr.sc.Client.NumConn), "browser=" + fr.sc.Client.Browser}}
+		res := vk.Result{Labels: []string{fmt.Sprintf("numconn=%d", fr.sc.Client.NumConn), "browser=" + fr.sc.Client.Browser, "transport=" + fr.sc.Client.Transport}}
 		res.NonTrivial = len(fr.cliLinks) >= 2 && len(fr.sc.Conns) >= 2
 		if res.NonTrivial {
 			res.Labels = append(res.Labels, "several-streams-over-several-connections")
